@@ -21,7 +21,7 @@ import (
 	"verifharness/hx"
 )
 
-func ip(v int) *int       { return &v }
+func ip(v int) *int      { return &v }
 func i64(v int64) *int64 { return &v }
 
 var base = time.Date(2020, 1, 1, 0, 0, 0, 0, time.UTC).UnixNano()
